@@ -10,7 +10,7 @@ from harness.render import render_prog, isa_for, parse_listing, err_class
 ALL_INVARIANTS = ['ReaderIsFold', 'Contiguity', 'ReservedEqualsEmitted', 'AlignIsLeastMultiple', 'LabelIsNextAddress',
                   'NoSilentOverlap', 'OverlapRejectionJustified', 'InsideZoneAndGlobal', 'WindowFaithful',
                   'MemIsUnmutedBytes', 'ActiveEqualsSelected', 'ResolvesOnlyToVisible', 'NoDuplicateKeys',
-                  'IncludeIsPaste']
+                  'IncludeIsPaste', 'SortIsStableInsertion']
 
 
 def cfg_text(params: dict, invariants=None, emit=True, alphabet='MCAlphabet', emit_inv='Emit') -> str:
